@@ -6,7 +6,7 @@ TRIAGE = os.path.join(VERIF, "analysis", "mutation_triage.json")
 
 
 def main():
-    tri = json.load(open(TRIAGE)) if os.path.exists(TRIAGE) else {}
+    from .mutation_triage import reason
     out = ["# Mutation sweep (author-side, not a registered check)", "",
            "One mutant at a time of the non-test part of the anchored files; verdict of the quick tier of all 20 properties",
            "(frozen copy of the checker at the time of the sweep), and for the silent ones the verdict of the repository's own test",
@@ -14,7 +14,7 @@ def main():
            "turned into clauses. `NOCOMPILE` mutants (trait bounds, type positions) are not counted.", ""]
     allrows = []
     for path, label in (("mutsweep.jsonl", "relational operator flipped"), ("mutsweep_logic.jsonl", "&&/|| swapped, negation dropped"),
-                        ("mutsweep_arith.jsonl", "+/- swapped"), ("mutsweep_stmt.jsonl", "expression statement deleted")):
+                        ("mutsweep_arith.jsonl", "+/- swapped"), ("mutsweep_stmt.jsonl", "expression statement deleted"), ("mutsweep_const.jsonl", "integer literal + 1")):
         p = os.path.join(VERIF, ".cache", path)
         if not os.path.exists(p):
             continue
@@ -34,7 +34,7 @@ def main():
             "| file:line | mutant | tests | triage |", "|---|---|---|---|"]
         for r in sorted(silent, key=lambda r: (r["file"], r["line"])):
             key = "%s:%d:%s" % (r["file"], r["line"], r["new"][:6] or "del")
-            out.append("| %s:%d | `%s` %s | %s | %s |" % (r["file"], r["line"], r["src"][:70].replace("|", "\\|"), ("-> `%s`" % r["new"]) if r["new"] else "deleted", r.get("tests", "-"), tri.get(key, tri.get("%s:%d" % (r["file"], r["line"]), ""))))
+            out.append("| %s:%d | `%s` %s | %s | %s |" % (r["file"], r["line"], r["src"][:70].replace("|", "\\|"), ("-> `%s`" % r["new"]) if r["new"] else "deleted", r.get("tests", "-"), reason(r["file"], r["line"]) or "**untriaged**"))
         out.append("")
         allrows += rows
     with open(os.path.join(VERIF, "reports", "mutation_sweep.md"), "w") as fh:
